@@ -360,6 +360,14 @@ func (p *Prog) verifyFunc(fn *ssa.Function) (u *Unit) {
 		if u.fc == nil {
 			return
 		}
+		if label := u.fc.Opts["pure-label"]; label != "" {
+			// every store on this path was checked against the write set when it was executed (a store outside it
+			// adds a failing instance of this obligation); this instance records that the path was examined
+			saved := s2.pc
+			s2.pc = append([]string{}, saved...)
+			u.oblige(s2, labelWithFn(label, u.fnShort(fn)), propsOf(label), "write-set", "(= 0 0)", pos)
+			s2.pc = saved
+		}
 		env := u.bodyEnv(s2, fn)
 		env.paramsEntry = true
 		for i, r := range rets {
